@@ -71,6 +71,7 @@ class Ob(object):
         self.params = params
         self.results = []          # dicts: name, kind, status ('discharged'|'failed'|'undecided'), detail
         self.inst = {}             # symbolic description of the inputs (for replay)
+        T.TRACK_NARROWING = self.dt() in ('float64', 'complex128')
         self.replay_args = {}
 
     # ---- inputs
